@@ -17,6 +17,13 @@ from .seams import TCS, Duck, FmtObj, Leaf, LeafSub, MDuck, MDuckSub, Node, NT, 
 
 _storage = jaxtyping._storage
 
+# generated functions / dataclasses claim to live in module "simworld": make it a real module so that
+# dataclasses (which look their module up in sys.modules) give __init__ a proper __module__
+import sys as _sys
+import types as _types
+
+_sys.modules.setdefault("simworld", _types.ModuleType("simworld"))
+
 ATYPES = {"np": np.ndarray, "duck": Duck, "mduck": MDuck, "any": typing.Any}
 BUILTIN_TYPES = {"int": int, "str": str, "any": typing.Any, "leaf": Leaf, "float": float, "none": type(None)}
 
@@ -150,7 +157,7 @@ class World:
     def _make_fn(self, fid, spec):
         kind = spec.get("kind", "fn")
         params = spec["params"]
-        ns = {"_I": self.interp, "dataclasses": dataclasses}
+        ns = {"_I": self.interp, "dataclasses": dataclasses, "__name__": "simworld"}
         sig = []
         for name, aref in params:
             if aref is None:
@@ -251,7 +258,8 @@ def exc_outcome(e):
     name = type(e).__name__
     msg = norm_text(str(e))
     if name == "TypeCheckError":
-        return {"exc": name, "msg": msg}
+        return {"exc": name, "msg": msg, "cause": e.__cause__ is not None, "is_typeerror": isinstance(e, TypeError),
+                "suppress_context": bool(e.__suppress_context__)}
     if len(msg) > 300:
         msg = msg[:300]
     return {"exc": name, "msg": msg}
